@@ -1,6 +1,6 @@
 ------------------------------ MODULE MC_Export ------------------------------
 (* Exports spec-defined spaces as ndjson (run by setup; see ../check). *)
-EXTENDS Gram, Text, ExpandFix, Escape, Options, Json, IOUtils, SequencesExt
+EXTENDS Gram, Text, ExpandFix, Escape, Options, Spell, Contract, Json, IOUtils, SequencesExt
 
 What == IOEnv.VH_WHAT
 OutF == IOEnv.VH_OUT
@@ -27,6 +27,16 @@ EscRecs == LET S == TextsUpTo(EscAlphabet, NN)
 
 SizeRecs == << [pieces |-> SizePieces, hosts |-> SizeHosts, limits |-> SizeLimits] >>
 
+\* C19: for every base pattern every style that changes its spelling (style 1 = plain is always included as the reference)
+SpellRecs == LET S == SetToSeq(UNION { { [base |-> b.ast, ng |-> b.ng, style |-> j, toks |-> Spell(b.ast, Styles[j]), sametree |-> TRUE]
+                                         : j \in {q \in 1..Len(Styles) : Applicable(b.ast, Styles[q])} } : b \in PatSet })
+             IN [q \in 1..Len(S) |-> [id |-> q, ast |-> S[q].base, base |-> S[q].base, ng |-> S[q].ng, style |-> S[q].style, toks |-> S[q].toks, sametree |-> S[q].sametree]]
+
+VocabRecs == LET S == TextsUpTo(Vocabulary, NN) IN [q \in 1..Len(S) |-> [id |-> q, toks |-> S[q]]]
+AmpRecs == LET S == {<<f, k>> : f \in 1..Len(AmpFamilies), k \in 1..Len(AmpFactors)}
+               Q == SetToSeq(S)
+           IN [q \in 1..Len(Q) |-> [id |-> q, amp |-> AmpFamilies[Q[q][1]], k |-> AmpFactors[Q[q][2]]]]
+
 VARIABLE done
 Init == done = FALSE
 Next == /\ ~done /\ done' = TRUE
@@ -35,6 +45,9 @@ Next == /\ ~done /\ done' = TRUE
              [] What = "templates" -> /\ ndJsonSerialize(OutF, TplRecs) /\ PrintT(<<"EXPORTED", Len(TplRecs)>>)
              [] What = "escapes" -> /\ ndJsonSerialize(OutF, EscRecs) /\ PrintT(<<"EXPORTED", Len(EscRecs)>>)
              [] What = "sizefix" -> /\ ndJsonSerialize(OutF, SizeRecs) /\ PrintT(<<"EXPORTED", Len(SizeRecs)>>)
+             [] What = "spell" -> /\ ndJsonSerialize(OutF, SpellRecs) /\ PrintT(<<"EXPORTED", Len(SpellRecs)>>)
+             [] What = "vocab" -> /\ ndJsonSerialize(OutF, VocabRecs) /\ PrintT(<<"EXPORTED", Len(VocabRecs)>>)
+             [] What = "amp" -> /\ ndJsonSerialize(OutF, AmpRecs) /\ PrintT(<<"EXPORTED", Len(AmpRecs)>>)
              [] What = "fixtures" -> /\ ndJsonSerialize(OutF, FixRecs) /\ PrintT(<<"EXPORTED", Len(FixRecs)>>)
              [] What = "texts" -> /\ ndJsonSerialize(OutF, TextRecs) /\ PrintT(<<"EXPORTED", Len(TextRecs)>>)
 Spec == Init /\ [][Next]_done
